@@ -1,6 +1,8 @@
 import RpmVerif.Lemmas.Vercmp
 import RpmVerif.Gen.VercmpVectors
 import RpmVerif.Lemmas.VercmpUtf8
+import RpmVerif.Lemmas.Version
+import RpmVerif.Lemmas.VercmpNum
 /-!
 # C13 — version comparison equals rpm's algorithm and is a total preorder
 
@@ -9,7 +11,7 @@ All theorems quantify over *all* strings (lists of code points of any length).
 -/
 set_option linter.unusedVariables false
 namespace RpmVerif.C13
-open RpmVerif.Vercmp Std
+open RpmVerif.Vercmp RpmVerif.Version Std
 
 /-- comparator obtained by mapping both arguments first -/
 def onKey {α β} (f : α → β) (c : β → β → Ordering) : α → α → Ordering := fun x y => c (f x) (f y)
@@ -130,10 +132,215 @@ theorem nevra_eq_cmp_eq (x y : Nevra) (h : x.eq y = true) : x.cmp y = .eq := by
   obtain ⟨⟨hn, he⟩, ha⟩ := h
   simp only [Nevra.cmp, ite_ne_eq, hn, ha, rustCmp_refl, evr_eq_cmp_eq _ _ he]; rfl
 
-/-- A test of the *spec* (labelled as such): the transcription of rpmvercmp agrees with every
-`compare_version_string` vector in src/version.rs (taken from rpm's own rpmvercmp.at), regenerated
-from the source on every run. Together with `rust_eq_c` this also re-proves those unit tests. -/
-theorem vectors_ok : ∀ v ∈ RpmVerif.Gen.vercmpVectors, cVercmp v.1 v.2.1 = v.2.2 := by
+/-! ### `PartialOrd`, the comparison operators, `max` / `min` (AUDIT2 a18) -/
+
+/-- rpm's order of two EVRs: epoch (empty meaning "0"), then version, then release, each with rpmvercmp -/
+def cEvrCmp (x y : Evr) : Ordering :=
+  (cVercmp (epochOr0 x.epoch) (epochOr0 y.epoch)).then
+    ((cVercmp x.version y.version).then (cVercmp x.release y.release))
+
+/-- `Evr::partial_cmp` is total (never `None`) and is rpm's order -/
+theorem evr_partial_cmp (x y : Evr) : x.partialCmp y = some (cEvrCmp x y) := by
+  simp only [Evr.partialCmp, cEvrCmp, evr_cmp_spec]
+
+/-- rpm's order of two NEVRAs: name, then EVR, then architecture -/
+def cNevraCmp (x y : Nevra) : Ordering :=
+  (cVercmp x.name y.name).then ((cEvrCmp x.evr y.evr).then (cVercmp x.arch y.arch))
+
+theorem nevra_cmp_spec (x y : Nevra) : x.cmp y = cNevraCmp x y := by
+  simp only [Nevra.cmp, ite_ne_eq, rust_eq_c, cNevraCmp, cEvrCmp, evr_cmp_spec]
+
+/-- `Nevra::partial_cmp` is total and is the lexicographic product name, EVR, architecture -/
+theorem nevra_partial_cmp (x y : Nevra) : x.partialCmp y = some (cNevraCmp x y) := by
+  simp only [Nevra.partialCmp, nevra_cmp_spec]
+
+/-- the four operators say what `cmp` says -/
+theorem evr_ops (x y : Evr) :
+    (x.lt y = true ↔ x.cmp y = .lt) ∧ (x.le y = true ↔ (x.cmp y).isLE = true) ∧
+    (x.gt y = true ↔ x.cmp y = .gt) ∧ (x.ge y = true ↔ (x.cmp y).isGE = true) := by
+  simp only [Evr.lt, Evr.le, Evr.gt, Evr.ge, Evr.partialCmp]
+  cases x.cmp y <;> simp [optLt, optLe, optGt, optGe]
+
+theorem nevra_ops (x y : Nevra) :
+    (x.lt y = true ↔ x.cmp y = .lt) ∧ (x.le y = true ↔ (x.cmp y).isLE = true) ∧
+    (x.gt y = true ↔ x.cmp y = .gt) ∧ (x.ge y = true ↔ (x.cmp y).isGE = true) := by
+  simp only [Nevra.lt, Nevra.le, Nevra.gt, Nevra.ge, Nevra.partialCmp]
+  cases x.cmp y <;> simp [optLt, optLe, optGt, optGe]
+
+/-- `<` and `>` are mirror images, `<=` is "not `>`": the operators form one total preorder -/
+theorem evr_ops_coherent (x y : Evr) :
+    x.gt y = y.lt x ∧ x.ge y = y.le x ∧ x.le y = !(x.gt y) ∧ (x.le y = true ∨ y.le x = true) := by
+  simp only [Evr.lt, Evr.le, Evr.gt, Evr.ge, Evr.partialCmp, evr_swap x y]
+  cases x.cmp y <;> simp [optLt, optLe, optGt, optGe, Ordering.swap]
+
+theorem nevra_ops_coherent (x y : Nevra) :
+    x.gt y = y.lt x ∧ x.ge y = y.le x ∧ x.le y = !(x.gt y) ∧ (x.le y = true ∨ y.le x = true) := by
+  simp only [Nevra.lt, Nevra.le, Nevra.gt, Nevra.ge, Nevra.partialCmp, nevra_swap x y]
+  cases x.cmp y <;> simp [optLt, optLe, optGt, optGe, Ordering.swap]
+
+/-- `max` returns one of its arguments, which is an upper bound of both; on a tie the second -/
+theorem evr_max_spec (x y : Evr) :
+    (x.max y = x ∨ x.max y = y) ∧ (x.cmp (x.max y)).isLE = true ∧ (y.cmp (x.max y)).isLE = true ∧
+    (x.cmp y = .eq → x.max y = y) := by
+  have hs := evr_swap x y
+  have hx := evr_refl x
+  have hy := evr_refl y
+  simp only [Evr.max, Evr.lt, Evr.partialCmp]
+  cases h : x.cmp y <;> rw [h] at hs <;> simp [hs, optLt, Ordering.swap, h, hx, hy]
+
+/-- `min` returns one of its arguments, which is a lower bound of both; on a tie the first -/
+theorem evr_min_spec (x y : Evr) :
+    (x.min y = x ∨ x.min y = y) ∧ ((x.min y).cmp x).isLE = true ∧ ((x.min y).cmp y).isLE = true ∧
+    (x.cmp y = .eq → x.min y = x) := by
+  have hs := evr_swap x y
+  have hx := evr_refl x
+  have hy := evr_refl y
+  simp only [Evr.min, Evr.lt, Evr.partialCmp]
+  cases h : x.cmp y <;> rw [h] at hs <;> simp [hs, optLt, Ordering.swap, h, hx, hy]
+
+theorem nevra_max_spec (x y : Nevra) :
+    (x.max y = x ∨ x.max y = y) ∧ (x.cmp (x.max y)).isLE = true ∧ (y.cmp (x.max y)).isLE = true ∧
+    (x.cmp y = .eq → x.max y = y) := by
+  have hs := nevra_swap x y
+  have hx := nevra_refl x
+  have hy := nevra_refl y
+  simp only [Nevra.max, Nevra.lt, Nevra.partialCmp]
+  cases h : x.cmp y <;> rw [h] at hs <;> simp [hs, optLt, Ordering.swap, h, hx, hy]
+
+theorem nevra_min_spec (x y : Nevra) :
+    (x.min y = x ∨ x.min y = y) ∧ ((x.min y).cmp x).isLE = true ∧ ((x.min y).cmp y).isLE = true ∧
+    (x.cmp y = .eq → x.min y = x) := by
+  have hs := nevra_swap x y
+  have hx := nevra_refl x
+  have hy := nevra_refl y
+  simp only [Nevra.min, Nevra.lt, Nevra.partialCmp]
+  cases h : x.cmp y <;> rw [h] at hs <;> simp [hs, optLt, Ordering.swap, h, hx, hy]
+
+/-! ### `rpm_evr_compare` on whole texts -/
+
+/-- What an EVR text denotes, stated on the text alone: the epoch is what precedes the FIRST ':' (nothing when there is no
+':'), the version is what follows up to the FIRST '-' after that, the release is the rest (nothing when there is no '-'). -/
+def EvrText (s e v r : Str) : Prop :=
+  ∃ rest, ((s = e ++ 58 :: rest ∧ 58 ∉ e) ∨ (58 ∉ s ∧ e = [] ∧ rest = s)) ∧
+          ((rest = v ++ 45 :: r ∧ 45 ∉ v) ∨ (45 ∉ rest ∧ v = rest ∧ r = []))
+
+theorem append_cons_inj {c : Nat} {a a' b b' : Str} (ha : c ∉ a) (ha' : c ∉ a') (h : a ++ c :: b = a' ++ c :: b') :
+    a = a' ∧ b = b' := by
+  induction a generalizing a' with
+  | nil =>
+    cases a' with
+    | nil => simpa using h
+    | cons y ys =>
+      simp only [List.nil_append, List.cons_append, List.cons.injEq] at h
+      exact absurd (by simp [h.1]) ha'
+  | cons x xs ih =>
+    cases a' with
+    | nil =>
+      simp only [List.nil_append, List.cons_append, List.cons.injEq] at h
+      exact absurd (by simp [h.1]) ha
+    | cons y ys =>
+      simp only [List.cons_append, List.cons.injEq] at h
+      obtain ⟨e1, e2⟩ := ih (fun m => ha (List.mem_cons_of_mem _ m)) (fun m => ha' (List.mem_cons_of_mem _ m)) h.2
+      exact ⟨by rw [h.1, e1], e2⟩
+
+/-- `Evr::parse_values` computes exactly that reading, and the reading is unique -/
+theorem evrText_iff (s e v r : Str) : EvrText s e v r ↔ evrParseValues s = (e, v, r) := by
+  constructor
+  · rintro ⟨rest, h1, h2⟩
+    have hsplit : (splitOnce 58 s).getD ([], s) = (e, rest) := by
+      rcases h1 with ⟨rfl, he⟩ | ⟨hs, rfl, rfl⟩
+      · rw [splitOnce_append _ he]; rfl
+      · rw [splitOnce_none hs]; rfl
+    have hsplit2 : (splitOnce 45 rest).getD (rest, []) = (v, r) := by
+      rcases h2 with ⟨rfl, hv⟩ | ⟨hs, rfl, rfl⟩
+      · rw [splitOnce_append _ hv]; rfl
+      · rw [splitOnce_none hs]; rfl
+    simp only [evrParseValues, hsplit, hsplit2]
+  · intro h
+    rcases evrParse_cases s with ⟨h1, h2, h'⟩ | ⟨v', r', h1, h2, h'⟩ | ⟨e', b, h1, h2, h'⟩ | ⟨e', b, v', r', h1, h2, h'⟩ <;>
+      rw [h'] at h <;> simp only [Prod.mk.injEq] at h <;> obtain ⟨rfl, rfl, rfl⟩ := h
+    · exact ⟨s, Or.inr ⟨splitOnce_eq_none h1, rfl, rfl⟩, Or.inr ⟨splitOnce_eq_none h2, rfl, rfl⟩⟩
+    · exact ⟨s, Or.inr ⟨splitOnce_eq_none h1, rfl, rfl⟩, Or.inl (splitOnce_some h2)⟩
+    · exact ⟨b, Or.inl (splitOnce_some h1), Or.inr ⟨splitOnce_eq_none h2, rfl, rfl⟩⟩
+    · exact ⟨b, Or.inl (splitOnce_some h1), Or.inl (splitOnce_some h2)⟩
+
+/-- **`rpm_evr_compare`**: two texts are compared by reading each as epoch / version / release (`EvrText`) and comparing
+epoch (empty meaning "0"), then version, then release with rpm's algorithm. -/
+theorem rpmEvrCompare_spec (s t e1 v1 r1 e2 v2 r2 : Str) (hs : EvrText s e1 v1 r1) (ht : EvrText t e2 v2 r2) :
+    rpmEvrCompare s t = cEvrCmp ⟨e1, v1, r1⟩ ⟨e2, v2, r2⟩ := by
+  rw [evrText_iff] at hs ht
+  simp only [rpmEvrCompare, Evr.parse, hs, ht, evr_cmp_spec, cEvrCmp]
+
+/-- every text has a reading, so the theorem above covers every pair of texts -/
+theorem evrText_total (s : Str) : ∃ e v r, EvrText s e v r :=
+  ⟨_, _, _, (evrText_iff s _ _ _).mpr rfl⟩
+
+/-! ### epochs compare numerically (AUDIT2 c41) -/
+
+theorem epochOr0_digits (a : Str) (ha : AllDigits a) :
+    AllDigits (epochOr0 a) ∧ epochOr0 a ≠ [] ∧ decVal (epochOr0 a) = decVal a := by
+  cases a with
+  | nil => exact ⟨by intro c hc; simp [epochOr0] at hc; subst hc; decide, by simp [epochOr0], by decide⟩
+  | cons x r => exact ⟨ha, by simp [epochOr0], rfl⟩
+
+/-- **Epochs compare numerically.** The library (like rpm ≥ 4.16) runs the version comparison on the epoch TEXTS, "" read
+as "0". For all-digit epochs — the only ones rpm itself ever holds — that is the comparison of the numbers they denote:
+`00` = `0` = ``, `007` < `10`, 2⁶⁴ > 2⁶⁴ − 1 (no machine-integer wrap-around). -/
+theorem epoch_numeric (a b : Str) (ha : AllDigits a) (hb : AllDigits b) :
+    rustCmp (epochOr0 a) (epochOr0 b) = compare (decVal a) (decVal b)
+    ∧ cVercmp (epochOr0 a) (epochOr0 b) = compare (decVal a) (decVal b) := by
+  obtain ⟨da, na, va⟩ := epochOr0_digits a ha
+  obtain ⟨db, nb, vb⟩ := epochOr0_digits b hb
+  have := keyCmp_digits _ _ da db na nb
+  rw [va, vb] at this
+  exact ⟨by rw [rustCmp_eq_keyCmp, this], by rw [cVercmp_eq_keyCmp, this]⟩
+
+/-- `Evr::cmp` with numeric epochs: the number decides first, then version, then release -/
+theorem evr_cmp_numeric_epoch (x y : Evr) (hx : AllDigits x.epoch) (hy : AllDigits y.epoch) :
+    x.cmp y = (compare (decVal x.epoch) (decVal y.epoch)).then
+      ((cVercmp x.version y.version).then (cVercmp x.release y.release)) := by
+  rw [evr_cmp_spec, (epoch_numeric _ _ hx hy).2]
+
+/-- outside the digit strings the epoch comparison is NOT numeric (and `==` is finer than `cmp`): documented behaviour of the
+text comparison — "1a" > "1" (a letter run after the number), "a" < "" = "0" (letters sort before numbers), "00" and "0"
+compare Equal although `Evr::eq` tells them apart -/
+theorem epoch_text_cases :
+    rustCmp (epochOr0 [49, 97]) (epochOr0 [49]) = .gt ∧ rustCmp (epochOr0 [97]) (epochOr0 []) = .lt
+    ∧ Evr.cmp ⟨[48, 48], [49], [49]⟩ ⟨[48], [49], [49]⟩ = .eq ∧ Evr.eq ⟨[48, 48], [49], [49]⟩ ⟨[48], [49], [49]⟩ = false := by
+  decide +kernel
+
+/-! ### the oracle: vectors that do not live in /repo (AUDIT2 c40)
+
+The tables are generated from files vendored under /verif/tools/gen/data: rpm's own `tests/rpmvercmp.at` cases, and ordered
+pairs answered by libsolv's independent C implementation (`solv_vercmp_rpm`, `pool_evrcmp_str`). Each vector is checked
+against BOTH the transcription of rpmvercmp.c run on the UTF-8 bytes and the model of the Rust function run on the code
+points (so the unit-test vectors of rpm are re-proved of the library's algorithm as well). -/
+
+def asciiVecOk (v : RpmVerif.Gen.AsciiVec) : Bool := cVercmp v.1 v.2.1 == v.2.2 && rustCmp v.1 v.2.1 == v.2.2
+def utf8VecOk (v : RpmVerif.Gen.Utf8Vec) : Bool := cVercmp v.2.1.1 v.2.1.2 == v.2.2 && rustCmp v.1.1 v.1.2 == v.2.2
+
+/-- every `RPMVERCMP(a, b, r)` case of rpm's tests/rpmvercmp.at: `rpmvercmp` as transcribed gives `r` on the bytes, and
+so does the library's function on the characters -/
+theorem vectors_ok : RpmVerif.Gen.vercmpVectors.all asciiVecOk = true ∧ RpmVerif.Gen.vercmpVectorsU.all utf8VecOk = true := by
+  decide +kernel
+
+/-- the same for the pairs answered by libsolv's `solv_vercmp_rpm` (corner cases: empty strings, zero-only segments against
+letters, `~` / `^` everywhere, the ASCII neighbours of the digit and letter ranges, non-ASCII digits and letters, numbers
+beyond 2^64) -/
+theorem libsolv_vectors_ok :
+    RpmVerif.Gen.vercmpLibsolvVectors.all asciiVecOk = true ∧ RpmVerif.Gen.vercmpLibsolvVectorsU.all utf8VecOk = true := by
+  decide +kernel
+
+/-- rpm's reading of two EVR texts, on bytes: split at the first ':' and the first '-' after it, then `cEvrCmp` -/
+def cEvrTextCmp (s t : Str) : Ordering :=
+  let (e1, v1, r1) := evrParseValues s
+  let (e2, v2, r2) := evrParseValues t
+  cEvrCmp ⟨e1, v1, r1⟩ ⟨e2, v2, r2⟩
+
+/-- whole E:V-R texts (numeric epochs incl. `00`, `007`, 2^32, 2^64; releases present and absent) answered by libsolv's
+`pool_evrcmp_str`: `rpm_evr_compare` as modelled gives the same answer -/
+theorem libsolv_evr_vectors_ok :
+    RpmVerif.Gen.evrLibsolvVectors.all (fun v => cEvrTextCmp v.1 v.2.1 == v.2.2 && rpmEvrCompare v.1 v.2.1 == v.2.2) = true := by
   decide +kernel
 
 /-! ### non-vacuity: hypotheses are met by concrete, non-trivial values
@@ -149,5 +356,26 @@ example : Evr.eq ⟨[], [49], [50]⟩ ⟨[48], [49], [50]⟩ = true := by decide
 example : encode utf8 [49, 46, 193] = [49, 46, 0xC3, 0x81] := by decide
 -- "1.1.Á.1" = "1.1.1": a non-ASCII char is a separator
 example : rustCmp [49,46,49,46,193,46,49] [49,46,49,46,49] = .eq := by decide +kernel
+
+-- the oracle tables are not empty
+example : RpmVerif.Gen.vercmpVectors.length = 97 ∧ RpmVerif.Gen.vercmpVectorsU.length = 6 := by decide +kernel
+example : 300 < RpmVerif.Gen.vercmpLibsolvVectors.length ∧ 50 < RpmVerif.Gen.vercmpLibsolvVectorsU.length
+    ∧ 200 < RpmVerif.Gen.evrLibsolvVectors.length := by decide +kernel
+-- operators: epoch "" vs "0" tie, `max` hands back the SECOND argument, `min` the first; "1:0-0" > "2-9"
+example : Evr.le ⟨[], [49], [50]⟩ ⟨[48], [49], [50]⟩ = true ∧ Evr.ge ⟨[], [49], [50]⟩ ⟨[48], [49], [50]⟩ = true
+    ∧ Evr.max ⟨[], [49], [50]⟩ ⟨[48], [49], [50]⟩ = ⟨[48], [49], [50]⟩
+    ∧ Evr.min ⟨[], [49], [50]⟩ ⟨[48], [49], [50]⟩ = ⟨[], [49], [50]⟩ := by decide +kernel
+example : Evr.gt ⟨[49], [48], [48]⟩ ⟨[], [50], [57]⟩ = true ∧ Evr.partialCmp ⟨[49], [48], [48]⟩ ⟨[], [50], [57]⟩ = some .gt
+    ∧ Evr.max ⟨[49], [48], [48]⟩ ⟨[], [50], [57]⟩ = ⟨[49], [48], [48]⟩ := by decide +kernel
+-- "1:2.0-3" reads as epoch "1", version "2.0", release "3"; "2.0" as version only; a ':' after the first '-' stays in the release
+example : EvrText [49,58,50,46,48,45,51] [49] [50,46,48] [51] := ⟨[50,46,48,45,51], Or.inl ⟨rfl, by decide⟩, Or.inl ⟨rfl, by decide⟩⟩
+example : EvrText [50,46,48] [] [50,46,48] [] := ⟨[50,46,48], Or.inr ⟨by decide, rfl, rfl⟩, Or.inr ⟨by decide, rfl, rfl⟩⟩
+example : rpmEvrCompare [49,58,50,46,48,45,51] [50,46,48] = .gt := by decide +kernel
+
+-- premises of `epoch_numeric`: "007" is all digits and denotes 7; the empty epoch denotes 0; "1a" is not all digits
+example : AllDigits [48, 48, 55] ∧ decVal [48, 48, 55] = 7 ∧ decVal [] = 0 ∧ ¬ AllDigits [49, 97] := by decide
+-- 2^64 as an epoch is larger than 2^64 − 1 (20 digits each: the digits decide)
+example : rustCmp [49,56,52,52,54,55,52,52,48,55,51,55,48,57,53,53,49,54,49,54] [49,56,52,52,54,55,52,52,48,55,51,55,48,57,53,53,49,54,49,53] = .gt := by
+  decide +kernel
 
 end RpmVerif.C13
